@@ -209,14 +209,18 @@ def vErrorEnvelope (codes : List ECode) (compact : Bool) : Envelope :=
     verrCount := if compact then some 0 else none,
     hasWarnings := some false }
 
+/-- `result["schema_name"] = …; result["schema_version"] = …` (the builtin dict wins over the schema file). -/
+def recordSchema (builtin : Option Builtin) (defn : Option (Str × Option Str × Bool)) (argName : Str) (r : Envelope) : Envelope :=
+  match builtin, defn with
+  | some b, _ => { r with schemaName := some (b.name.getD argName), schemaVersion := some (b.version.getD "unknown".toList) }
+  | none, some (n, v, _) => { r with schemaName := some n, schemaVersion := some (orUnknown v) }
+  | none, none => r
+
 /-- The `if has_schema: … else: …` block of ValidateTool.execute applied to the initial `result`. -/
 def vDecide (p : Profile) (builtin : Option Builtin) (defn : Option (Str × Option Str × Bool))
     (argName : Str) (errs errsNoSchema : List VErr) (r : Envelope) : Envelope :=
   if builtin.isSome || defnHasFields defn then
-    let r := match builtin, defn with
-      | some b, _ => { r with schemaName := some (b.name.getD argName), schemaVersion := some (b.version.getD "unknown".toList) }
-      | none, some (n, v, _) => { r with schemaName := some n, schemaVersion := some (orUnknown v) }
-      | none, none => r
+    let r := recordSchema builtin defn argName r
     if errs.isEmpty then
       { r with vstatus := some .validated, valid := some true }
     else if p.downgrades then
@@ -305,11 +309,8 @@ def vEscapeTable (B : Builtins) (a : VArgs) (o : VOut) : List (Bool × Step) :=
     (a.fix && raised o.raises .v_repair,                                       .escape .v_repair),
     (a.fix && raised o.raises .v_revalidate,                                   .escape .v_revalidate) ]
 
-/-- The envelope of the main path (no early return, no escaping exception). -/
-def vResult (B : Builtins) (a : VArgs) (o : VOut) (p : Profile) : Envelope :=
-  let r0 : Envelope := { status := some .success, vstatus := some .unvalidated, valid := some false, verrs := some [] }
-  let r1 := { r0 with debugInfo := a.debugGrammar && (vDefn a o).isSome }
-  let r2 := vDecide p (vBuiltin B a) (vDefn a o) a.schemaName o.errs o.errsNoSchema r1
+/-- Everything after the has_schema block: grammar hint, repair warnings, emit, compact, has_warnings. -/
+def vPost (a : VArgs) (o : VOut) (r2 : Envelope) : Envelope :=
   -- grammar hint (guarded), only on INVALID
   let r3 := if r2.vstatus == some .invalid && a.grammarHint && (vDefn a o).isSome
             then { r2 with grammarHint := some (!raised o.raises .v_hint) } else r2
@@ -320,6 +321,12 @@ def vResult (B : Builtins) (a : VArgs) (o : VOut) (p : Profile) : Envelope :=
     { r4 with status := some .error, errCodes := [.E_EMIT] }
   else
     vFinish a.compact r4
+
+/-- The envelope of the main path (no early return, no escaping exception). -/
+def vResult (B : Builtins) (a : VArgs) (o : VOut) (p : Profile) : Envelope :=
+  let r0 : Envelope := { status := some .success, vstatus := some .unvalidated, valid := some false, verrs := some [] }
+  let r1 := { r0 with debugInfo := a.debugGrammar && (vDefn a o).isSome }
+  vPost a o (vDecide p (vBuiltin B a) (vDefn a o) a.schemaName o.errs o.errsNoSchema r1)
 
 def ValidateExec (B : Builtins) (a : VArgs) (o : VOut) : Except Exc Envelope :=
   match firstFiring (vPreTable a o ++ vEscapeTable B a o) with
@@ -447,10 +454,7 @@ def wDecide (B : Builtins) (a : WArgs) (o : WOut) (name : Str) (r : Envelope) : 
   let defn := wDefn o name
   let r := { r with debugInfo := a.debugGrammar && defn.isSome }
   if !wHasSchema B o name then r else
-  let r := match builtin, defn with
-    | some b, _ => { r with schemaName := some (b.name.getD name), schemaVersion := some (b.version.getD "unknown".toList) }
-    | none, some (n, v, _) => { r with schemaName := some n, schemaVersion := some (orUnknown v) }
-    | none, none => r
+  let r := recordSchema builtin defn name r
   let errs := wFinalErrs B a o name
   if !errs.isEmpty then
     let r := { r with vstatus := some .invalid, verrs := some errs }
@@ -474,11 +478,16 @@ def wPostTable (a : WArgs) (o : WOut) (r : Envelope) : List (Bool × Step) :=
     (o.write != .ok,                   wErr .E_WRITE),
     (true,                             .ret r) ]
 
+def wSchemaEsc (B : Builtins) (a : WArgs) (o : WOut) : List (Bool × Step) :=
+  match a.schemaName with
+  | none => []
+  | some name => wSchemaEscapeTable B a o name
+
+def wTable (B : Builtins) (a : WArgs) (o : WOut) : List (Bool × Step) :=
+  wPreTable a o ++ wSchemaEsc B a o ++ wPostTable a o (wResult B a o)
+
 def WriteExec (B : Builtins) (a : WArgs) (o : WOut) : Except Exc Envelope :=
-  let schemaEsc := match a.schemaName with
-    | none => []
-    | some name => wSchemaEscapeTable B a o name
-  match firstFiring (wPreTable a o ++ schemaEsc ++ wPostTable a o (wResult B a o)) with
+  match firstFiring (wTable B a o) with
   | some step => step.run
   | none => .ok (wResult B a o)      -- unreachable: the last row of wPostTable always fires
 
